@@ -72,6 +72,12 @@ class AutoOptimizer(PathOptimizer):
             self._optimizer_hyper_cls = HyperOptimizer
 
     def _get_optimizer_hyper_threadsafe(self):
+        if self._optimizer_hyper_cls is HyperOptimizer:
+            # a plain (non-reusable) hyper optimizer keeps the best trial of
+            # everything it has ever searched, so it can only serve a single
+            # contraction -> instantiate a new one each time
+            return HyperOptimizer(minimize=self.minimize, **self.kwargs)
+
         # since the hyperoptimizer is stateful while running,
         # we need to instantiate a separate one for each thread
         tid = threading.get_ident()
